@@ -4,21 +4,44 @@
 // x86-64: loads acquire, stores release. Non-volatile conflicting accesses are still reported.
 // Atomic::swap/testAndSet (= __sync_lock_test_and_set, acquire-only in the C++ model, a full-fence xchg on x86-64) are used to publish data; the exchange
 // entry points are interposed and forwarded with seq_cst.
+// The read annotation runs just BEFORE the annotated load executes, so a release that lands between the two would be missed (one-off false report when
+// the reader is preempted in that window). Every annotated address is therefore remembered per thread and acquired AGAIN at the thread's next
+// annotated or interposed atomic operation (in libnstd's lock-free code a CAS/RMW always follows the volatile ticket read before data is touched).
 #include <dlfcn.h>
 #include <stdint.h>
+#define NST __attribute__((no_sanitize_thread))
 extern "C" {
 void __tsan_acquire(void* addr);
 void __tsan_release(void* addr);
-static volatile long g_volatile_events = 0;
-long verif_tsan_volatile_events() { return g_volatile_events; }
-#define RD(n) void __tsan_volatile_read##n(void* a) { __tsan_acquire(a); ++g_volatile_events; } void __tsan_unaligned_volatile_read##n(void* a) { __tsan_acquire(a); }
-#define WR(n) void __tsan_volatile_write##n(void* a) { __tsan_release(a); ++g_volatile_events; } void __tsan_unaligned_volatile_write##n(void* a) { __tsan_release(a); }
+// event counter: thread-local, flushed rarely, so that the annotation returns immediately before the annotated access executes
+static long g_volatile_events = 0;
+static __thread unsigned t_events = 0;
+static __thread void* t_pending[4];
+static __thread unsigned t_npending = 0;
+NST static inline void note() { if ((++t_events & 4095) == 0) __atomic_fetch_add(&g_volatile_events, 4096, __ATOMIC_RELAXED); }
+NST static inline void reacquire() { unsigned n = t_npending; if (!n) return; t_npending = 0; for (unsigned i = 0; i < n && i < 4; ++i) __tsan_acquire(t_pending[i]); }
+NST static inline void remember(void* a) { if (t_npending < 4) t_pending[t_npending++] = a; else { t_pending[0] = t_pending[1]; t_pending[1] = t_pending[2]; t_pending[2] = t_pending[3]; t_pending[3] = a; } }
+NST long verif_tsan_volatile_events() { return __atomic_load_n(&g_volatile_events, __ATOMIC_RELAXED); }
+#define RD(n) NST void __tsan_volatile_read##n(void* a) { note(); reacquire(); remember(a); __tsan_acquire(a); } NST void __tsan_unaligned_volatile_read##n(void* a) { reacquire(); remember(a); __tsan_acquire(a); }
+#define WR(n) NST void __tsan_volatile_write##n(void* a) { note(); reacquire(); __tsan_release(a); } NST void __tsan_unaligned_volatile_write##n(void* a) { reacquire(); __tsan_release(a); }
 RD(1) RD(2) RD(4) RD(8) RD(16) WR(1) WR(2) WR(4) WR(8) WR(16)
 
+#define REALFN(name) static name##_t real = 0; if (!real) real = (name##_t)dlsym(RTLD_NEXT, #name)
 #define XCHG(bits, T) \
-  T __tsan_atomic##bits##_exchange(volatile T* a, T v, int mo) { \
-    typedef T (*fn_t)(volatile T*, T, int); static fn_t real = 0; \
+  NST T __tsan_atomic##bits##_exchange(volatile void* a, T v, int mo) { \
+    typedef T (*fn_t)(volatile void*, T, int); static fn_t real = 0; \
     if (!real) real = (fn_t)dlsym(RTLD_NEXT, "__tsan_atomic" #bits "_exchange"); \
-    (void)mo; return real(a, v, 5 /* seq_cst */); }
-XCHG(8, uint8_t) XCHG(16, uint16_t) XCHG(32, uint32_t) XCHG(64, uint64_t)
+    (void)mo; T r = real(a, v, 5 /* seq_cst */); reacquire(); return r; } \
+  NST T __tsan_atomic##bits##_fetch_add(volatile void* a, T v, int mo) { \
+    typedef T (*fn_t)(volatile void*, T, int); static fn_t real = 0; \
+    if (!real) real = (fn_t)dlsym(RTLD_NEXT, "__tsan_atomic" #bits "_fetch_add"); \
+    T r = real(a, v, mo); reacquire(); return r; } \
+  NST bool __tsan_atomic##bits##_compare_exchange_strong(volatile void* a, void* c, T v, int mo, int fmo) { \
+    typedef bool (*fn_t)(volatile void*, void*, T, int, int); static fn_t real = 0; \
+    if (!real) real = (fn_t)dlsym(RTLD_NEXT, "__tsan_atomic" #bits "_compare_exchange_strong"); \
+    bool r = real(a, c, v, mo, fmo); reacquire(); return r; }
+XCHG(8, unsigned char) XCHG(16, unsigned short) XCHG(32, unsigned int) XCHG(64, unsigned long)
+NST void __tsan_atomic_thread_fence(int mo) {
+  typedef void (*fn_t)(int); static fn_t real = 0; if (!real) real = (fn_t)dlsym(RTLD_NEXT, "__tsan_atomic_thread_fence");
+  real(mo); reacquire(); }
 }
